@@ -37,7 +37,9 @@ RULE = ('World run: a workbook of 2-9 (thorough 12) cells on a random cyclic '
         'dependency graph (edges through +, SUM ranges, defined names, IF '
         'guards = strict; IF/IFS branches, IFERROR/IFNA fallbacks = lazy), '
         'loaded with finish(circular=True) along 3-4 schedules (dictionary '
-        'item order, placement = translation + renaming, file path) in 2 '
+        'item order, two-stage builds each closed with '
+        'finish(circular=True), placement = translation + renaming, file '
+        'path) in 2 '
         '(quick) / 4 (thorough) PYTHONHASHSEED interpreters; non-trivial: '
         'the world has >= 1 static cycle and >= 2 schedules ran; distinct by '
         '(world, schedules) digest. Graph run (every 16th): one of 16 slices '
